@@ -11,3 +11,4 @@ import Photon.Properties.C18
 import Photon.Model.Sync
 import Photon.Properties.C04
 import Photon.Properties.C01
+import Photon.Properties.C02
